@@ -93,6 +93,16 @@ fn run_one(sink: &Arc<Mutex<Vec<SpanRecord>>>, c: &Case, annotated: bool, uniq: 
             f();
         }
     } else {
+        // context 4: as context 1, but the returned future is dropped without a poll
+        let unpolled = c.ctx == 4 && pair.is_async && !pair.eop;
+        rt::DROP_UNPOLLED.with(|d| d.set(unpolled));
+        struct Reset;
+        impl Drop for Reset {
+            fn drop(&mut self) {
+                rt::DROP_UNPOLLED.with(|d| d.set(false));
+            }
+        }
+        let _reset = Reset;
         let root = Span::root(root_name.clone(), SpanContext::new(TraceId(uniq as u128 + 1), SpanId(0)));
         let _g = if c.ctx >= 1 { Some(root.set_local_parent()) } else { None };
         let _l = if c.ctx == 2 { Some(LocalSpan::enter_with_local_parent(local_name.clone())) } else { None };
@@ -174,6 +184,26 @@ fn check(sink: &Arc<Mutex<Vec<SpanRecord>>>, c: &Case, uniq: &mut u64) -> Vec<Vi
         }
         return out;
     }
+    if c.ctx == 4 && pair.is_async && !pair.eop && ann.out.panic.as_deref() == Some(rt::UNPOLLED) {
+        // the future was dropped without a poll: the body never ran. A function that returns a
+        // boxed future (async-trait method, hand-written Box::pin tail) has started its span
+        // with the call all the same: one span, named and parented as always, with the
+        // configured properties; a real `async fn` has not started anything
+        let at_call = pair.kind == "AsyncTrait" || pair.kind == "BoxPinTail";
+        let want = if at_call { 1 } else { 0 };
+        if ours.len() != want {
+            out.push(Viol { sig: "span-count:unpolled-future".into(), msg: format!("{}: the returned future was dropped without a poll: expected {} span(s), delivered {:?}", who, want, ours.iter().map(|r| r.name.to_string()).collect::<Vec<_>>()) });
+        } else if at_call {
+            let r = ours[0];
+            let (ptrace, pid) = ann.ctx_parent.unwrap_or((0, 0));
+            let name = if pair.naming == 1 { pair.name } else { pair.ident };
+            let got_props: Vec<(String, String)> = r.properties.iter().map(|(k, v)| (k.to_string(), v.to_string())).collect();
+            if r.name != name || r.parent_id.0 != pid || r.trace_id.0 != ptrace || got_props != want_props {
+                out.push(Viol { sig: "span-of-unpolled-future".into(), msg: format!("{}: span of a call whose future was never polled: name {:?} (expected {:?}), parent {:x} (expected {:x}), properties {:?} (expected {:?})", who, r.name, name, r.parent_id.0, pid, got_props, want_props) });
+            }
+        }
+        return out;
+    }
     // expected call tree from the plain twin's call trace: (depth, id, path)
     let calls = &plain.calls;
     if calls.is_empty() {
@@ -252,7 +282,7 @@ fn case_strategy(npairs: usize, only: Option<usize>) -> BoxedStrategy<Case> {
     };
     let int = prop_oneof![4 => -20i64..200, 2 => any::<i64>(), 1 => Just(0i64), 1 => Just(i64::MAX), 1 => Just(i64::MIN)];
     let s = prop_oneof![3 => "[a-z]{0,6}", 1 => Just("é😀\"{}".to_string()), 1 => Just(String::new())];
-    (pair, [int.clone(), int.clone(), int.clone(), int], [s.clone(), s], prop_oneof![1 => Just(0u8), 3 => Just(1u8), 2 => Just(2u8), 2 => Just(3u8)])
+    (pair, [int.clone(), int.clone(), int.clone(), int], [s.clone(), s], prop_oneof![1 => Just(0u8), 3 => Just(1u8), 2 => Just(2u8), 2 => Just(3u8), 1 => Just(4u8)])
         .prop_map(|(pair, ints, strs, ctx)| Case { pair, inp: rt::Inputs { ints, strs }, ctx })
         .boxed()
 }
